@@ -13,7 +13,7 @@ Models (each in its own namespace, all with `Params`, `State`, `init`, `step`):
   `Interval`  observables/interval.rs:13-28 (+ operators/take.rs:36-51 downstream, + an unsubscribing thread)
   `Timer`     observables/timer.rs:13-22
   `Delay`     operators/delay.rs:30-38 driven by a scripted source thread
-  `Timeout`   operators/timeout.rs:49-83; every item arms a fresh `interval(d).take(1)` on a fresh scheduler thread
+  `Timeout`   operators/timeout.rs:41-97; every item arms a fresh `interval(d).take(1)` on a fresh scheduler thread
   `Debounce`  operators/debounce.rs:42-85 with `set_on_finalize(scheduler.abort)` (stream_controller.rs:132-145)
   `Sample`    operators/sample.rs:31-73
   `Rounds`    a driver that subscribes / unsubscribes `interval(d)` repeatedly (thread accumulation, C15)
@@ -417,23 +417,30 @@ def replay (p : Params) (ls : List Label) : Option State := runFrom (step p) (in
 
 end Delay
 
-/-! ## Timeout: `source.timeout(d, new_thread_scheduler())` (operators/timeout.rs:41-84)
+/-! ## Timeout: `source.timeout(d, new_thread_scheduler())` (operators/timeout.rs:41-97, tree after the repair
+"timeout cancels its armed timer when the subscription ends")
 
 thread 0 = source thread, thread 1 = optional unsubscriber of the outer subscription, thread `2 + i` = the scheduler
 thread of the `i`-th armed timer (`timers[i]`), an `interval(d).take(1)` worker (see `IW`).
 ```
+sctl.set_on_finalize(move || {                                       // timeout.rs:49-54, run ONCE by `finalize`
+  let armed = timer.write().unwrap().take();                         //   (stream_controller.rs:132-145: on_finalize is
+  if let Some(armed) = armed { armed.unsubscribe(); } });            //    taken and set to None)  = `finalize` below
 move |_, x| {                                                        // source pc
   { let mut timer = timer.write(); if let Some(t) = &*timer { t.unsubscribe(); } *timer = None; }   // call → mid1
-  sctl_next.sink_next(x);                                            // mid1 → mid2
-  *timer.write() = Some(interval(dur, ..).take(1).subscribe(         // mid2 → advance: new thread, pc = top
-      move |_| sctl.sink_error(TimedOut), ..));
+  sctl_next.sink_next(x);                                            // mid1 → mid2   (not subscribed: `finalize`)
+  if sctl_next.is_subscribed() {                                     // mid2, arming = false: → arming = true | advance
+    *timer.write() = Some(interval(dur, ..).take(1).subscribe(       // mid2, arming = true → advance: new thread, pc = top
+        move |_| sctl.sink_error(TimedOut), ..)); }
 },
-move |_, e| sctl_error.sink_error(e),                                // call → advance (the timer slot is NOT cancelled)
-move |serial| sctl_complete.sink_complete(&serial)                   // call → advance (the timer slot is NOT cancelled)
+move |_, e| sctl_error.sink_error(e),                                // call → advance: deliver, then `finalize`
+move |serial| sctl_complete.sink_complete(&serial)                   // call → advance: deliver, then `finalize`
 ```
 A timer worker at `emit` calls `s.next(0)`: gated by its own observer (`w.sub`), then `take(1)` forwards to the lambda
 (`sink_error(TimedOut)` on the OUTER controller: delivered iff the outer subscriber is still subscribed, then
-`finalize`) and completes, which unsubscribes the worker's observer (`emitted … true`). -/
+`finalize`) and completes, which unsubscribes the worker's observer (`emitted … true`).
+The `is_subscribed` test and the store into the `timer` cell are two micro-steps: an unsubscribe by ANOTHER thread that
+falls between them (`raced`, ghost) finds the cell empty, and the timer stored afterwards is never cancelled. -/
 namespace Timeout
 
 structure Params where
@@ -450,21 +457,36 @@ structure State where
   /-- the `timer` cell: index of the armed timer -/
   slot : Option Nat := none
   timers : List IW := []
+  /-- `on_finalize` of the outer controller is still set -/
+  onFin : Bool := true
+  /-- the source thread passed `if sctl_next.is_subscribed()` and is about to store a new timer -/
+  arming : Bool := false
   udone : Bool := false
   log : List Out := []
   /-- ghost: instant the outer subscriber stopped being subscribed -/
   outerEndedAt : Option Nat := none
+  /-- ghost: the unsubscriber thread ran between the `is_subscribed` test and the store of the new timer -/
+  raced : Bool := false
 deriving DecidableEq, Repr, Inhabited
 
 def init (p : Params) : State := { src := Src.start 0 p.script, udone := p.unsubAt.isNone }
 
+/-- `unsubscribe()` on the timer in `slot`, if any -/
+def cancelIn (now : Nat) (slot : Option Nat) (ts : List IW) : List IW :=
+  match slot with
+  | some i => match ts[i]? with
+    | some w => ts.set i (w.cancel now)
+    | none => ts
+  | none => ts
+
 /-- `timer.unsubscribe()` on the armed timer, if any -/
-def cancelSlot (s : State) : List IW :=
-  match s.slot with
-  | some i => match s.timers[i]? with
-    | some w => s.timers.set i (w.cancel s.now)
-    | none => s.timers
-  | none => s.timers
+def cancelSlot (s : State) : List IW := cancelIn s.now s.slot s.timers
+
+/-- timers after `StreamController::finalize` (its `on_finalize` part) -/
+def finTimers (s : State) (ts : List IW) : List IW := if s.onFin then cancelIn s.now s.slot ts else ts
+
+/-- `timer` cell after `finalize` -/
+def finSlot (s : State) : Option Nat := if s.onFin then none else s.slot
 
 def endOuter (s : State) : Option Nat := if s.sub then some s.now else s.outerEndedAt
 
@@ -484,24 +506,34 @@ def step (p : Params) (s : State) : Label → Option State
               if s.srcSub then some { s with src := { s.src with pc := .mid1 }, timers := cancelSlot s, slot := none }
               else some { s with src := s.src.advance s.now }
           | (_, ev) :: _ =>
-              some { s with src := s.src.advance s.now, srcSub := false, sub := s.sub && !s.srcSub,
-                            outerEndedAt := if s.srcSub then endOuter s else s.outerEndedAt,
-                            log := s.log ++ (if s.srcSub && s.sub then [(s.now, ev)] else []) }
+              if s.srcSub then
+                some { s with src := s.src.advance s.now, srcSub := false, sub := false,
+                              outerEndedAt := endOuter s,
+                              log := s.log ++ (if s.sub then [(s.now, ev)] else []),
+                              timers := finTimers s s.timers, slot := finSlot s, onFin := false }
+              else some { s with src := s.src.advance s.now }
           | [] => none
       | .mid1 =>
           match s.src.rest with
           | (_, ev) :: _ =>
-              some { s with src := { s.src with pc := .mid2 }, log := s.log ++ (if s.sub then [(s.now, ev)] else []) }
+              if s.sub then some { s with src := { s.src with pc := .mid2 }, log := s.log ++ [(s.now, ev)] }
+              else some { s with src := { s.src with pc := .mid2 }, srcSub := false,
+                                 timers := finTimers s s.timers, slot := finSlot s, onFin := false }
           | [] => none
       | .mid2 =>
-          some { s with src := s.src.advance s.now, slot := some s.timers.length,
-                        timers := s.timers ++ [{ born := s.now }] }
+          if s.arming then
+            some { s with src := s.src.advance s.now, slot := some s.timers.length,
+                          timers := s.timers ++ [{ born := s.now }], arming := false }
+          else if s.sub then some { s with arming := true }
+          else some { s with src := s.src.advance s.now }
       | .done => none
   | .run 1 =>
       match p.unsubAt with
       | some u =>
           if s.udone = false ∧ u ≤ s.now then
-            some { s with udone := true, sub := false, srcSub := false, outerEndedAt := endOuter s }
+            some { s with udone := true, sub := false, srcSub := false, outerEndedAt := endOuter s,
+                          timers := finTimers s s.timers, slot := finSlot s, onFin := false,
+                          raced := s.raced || s.arming }
           else none
       | none => none
   | .run (i + 2) =>
@@ -509,12 +541,16 @@ def step (p : Params) (s : State) : Label → Option State
       | some w =>
           match w.pc with
           | .emit =>
-              some { s with
-                timers := s.timers.set i (w.emitted s.now true)
-                sub := s.sub && !w.sub
-                srcSub := s.srcSub && !w.sub
-                outerEndedAt := if w.sub then endOuter s else s.outerEndedAt
-                log := s.log ++ (if w.sub && s.sub then [(s.now, Ev.error timedOut)] else []) }
+              if w.sub then
+                some { s with
+                  timers := finTimers s (s.timers.set i (w.emitted s.now true))
+                  slot := finSlot s
+                  onFin := false
+                  sub := false
+                  srcSub := false
+                  outerEndedAt := endOuter s
+                  log := s.log ++ (if s.sub then [(s.now, Ev.error timedOut)] else []) }
+              else some { s with timers := s.timers.set i (w.emitted s.now true) }
           | _ => match w.localStep p.d s.now with
                  | some w' => some { s with timers := s.timers.set i w' }
                  | none => none
